@@ -262,7 +262,7 @@ def hist_build(case):
 def hist_fn(case):
     r = core.R(case)
     rthist.run_history(r, case['hist'], lambda: hist_build(case), 'ktables/%s/%s' % (case['kind'], case['grids']),
-                       env_apply=lambda which: hist_env(case, which))
+                       env_apply=lambda which: hist_env(case, which), as_numpy=bool(case.get('np')))
     return r
 
 
@@ -285,4 +285,6 @@ def explore(ctx):
     hcases += [{'kind': k, 'grids': 'same', 'hist': h} for k in ('transmission', 'emission') for h in he
                if any(o[0] == '__env__' for o in h)]
     ctx.bounds.update(histories=len(hcases), history_depth=2 if ctx.tier == 'quick' else 3)
+    # every single update once more with the value handed over as a numpy float64 scalar
+    hcases += [dict(c_, np=True) for c_ in hcases if len(c_['hist']) == 1]
     ctx.run_cases('hist_fn', hcases, phase='histories')
